@@ -245,7 +245,8 @@ func (c11) Gen(rng *rand.Rand, tier string, k int) *Case {
 		copy(c.Ops[at+1:], c.Ops[at:len(c.Ops)-1])
 		c.Ops[at] = last
 	}
-	c.Ops = append(c.Ops, OpSpec{Op: "json", N: rng.Intn(6), Seed: rng.Int63n(1 << 30), From: rng.Intn(7)}) // From: element type
+	c.Ops = append(c.Ops, OpSpec{Op: "strrows", N: rng.Intn(6), Seed: rng.Int63n(1 << 30)})
+	c.Ops = append(c.Ops, OpSpec{Op: "json", N: rng.Intn(6), Seed: rng.Int63n(1 << 30), From: rng.Intn(13)}) // From: element type
 	if rng.Intn(16) == 0 {
 		c.Ops[len(c.Ops)-1].N = 100 + rng.Intn(500) // a document of several buffers' length
 	}
@@ -350,7 +351,12 @@ func (c11) Run(c *Case, st *Stats) []Violation {
 		}
 		simrt.GoKind("client", func() {
 			defer func() { clientDone = true }()
-			codec, err := helper.NewCsv[csvRow](true)
+			// one history in five uses a codec for files without a header row (columns in field order)
+			hasHeader := c.Seed%5 != 0
+			if !hasHeader {
+				st.Faults["codec-for-files-without-a-header-row"]++
+			}
+			codec, err := helper.NewCsv[csvRow](hasHeader)
 			if err != nil {
 				add("helper.Csv", "constructor-error", "-", err.Error())
 				return
@@ -388,7 +394,7 @@ func (c11) Run(c *Case, st *Stats) []Violation {
 							model = append(model, rows...)
 						}
 					case "appendorwrite":
-						err = helper.AppendOrWriteToCsvFile(path, true, feed(rows))
+						err = helper.AppendOrWriteToCsvFile(path, hasHeader, feed(rows))
 						model = append(model, rows...)
 					}
 					if fired := plan.TotalFired() - firedBefore; fired > 0 {
@@ -432,6 +438,9 @@ func (c11) Run(c *Case, st *Stats) []Violation {
 					}
 					prev, prevN = op.Op, len(model)
 				case "permuted":
+					if !hasHeader {
+						continue // columns are mapped by header name: nothing to permute without one
+					}
 					perm := rng.Perm(reflect.TypeOf(csvRow{}).NumField())
 					doc := independentCsv(rows, perm, op.From)
 					r := &FragReader{Data: doc, Frag: c.Frag, ErrAt: -1}
@@ -478,6 +487,69 @@ func (c11) Run(c *Case, st *Stats) []Violation {
 							return
 						}
 					}
+				case "strrows":
+					// a row type made of strings only, half of the cells empty (a row may be all
+					// empty): written in two batches to a file of its own and read back
+					if plan != nil {
+						continue // the fault plan counts the opens of the history's file
+					}
+					srows := make([]*csvStrRow, op.N)
+					for k := range srows {
+						cell := func() string {
+							if rng.Intn(2) == 0 {
+								return ""
+							}
+							return strPool[rng.Intn(len(strPool))]
+						}
+						srows[k] = &csvStrRow{A: cell(), B: cell(), C: cell()}
+					}
+					sHeader := op.Seed%2 == 0
+					spath := filepath.Join(dir, "strings.csv")
+					cut := 0
+					if op.N > 0 {
+						cut = rng.Intn(op.N + 1)
+					}
+					for _, part := range [][]*csvStrRow{srows[:cut], srows[cut:]} {
+						ch := make(chan *csvStrRow, c.Cap)
+						simrt.GoKind("prod", func() {
+							for _, r := range part {
+								prodYield()
+								ch <- r
+							}
+							simrt.Yield(-3, "prod-close")
+							close(ch)
+						})
+						if err := helper.AppendOrWriteToCsvFile(spath, sHeader, ch); err != nil {
+							add("helper.Csv", "write-error", "strrows", err.Error())
+							return
+						}
+					}
+					back, err := helper.ReadFromCsvFile[csvStrRow](spath, sHeader)
+					if err != nil {
+						add("helper.Csv", "read-error", "strrows", err.Error())
+						return
+					}
+					var sgot []*csvStrRow
+					for {
+						consYield()
+						r, ok := <-back
+						if !ok {
+							break
+						}
+						sgot = append(sgot, r)
+					}
+					if len(sgot) != len(srows) {
+						add("helper.Csv", "file-differs-from-model", "strrows", fmt.Sprintf("%d rows of three string cells written (header=%v), %d read back", len(srows), sHeader, len(sgot)))
+						return
+					}
+					for k := range srows {
+						if *sgot[k] != *srows[k] {
+							add("helper.Csv", "file-differs-from-model", "strrows", fmt.Sprintf("row %d: wrote %q, read %q", k, *srows[k], *sgot[k]))
+							return
+						}
+					}
+					os.Remove(spath)
+					st.Probes["string-only-rows-compared"]++
 				case "json":
 					if op.Seed%4 == 0 {
 						// a stream written to a sink that fails part-way: reported, and it must leave
@@ -524,6 +596,18 @@ func (c11) Run(c *Case, st *Stats) []Violation {
 								v[k] = rng.Intn(2) == 0
 							}
 							ok, why = jsonRoundTrip(c, st, v, func(a, b bool) bool { return a == b })
+						case 7:
+							ok, why = jsonInts(c, st, rng, op.N, []uint8{0, 1, 2, 127, 128, 255})
+						case 8:
+							ok, why = jsonInts(c, st, rng, op.N, []byteT{0, 1, 2, 127, 128, 255})
+						case 9:
+							ok, why = jsonInts(c, st, rng, op.N, []int8{0, 1, -1, 127, -128})
+						case 10:
+							ok, why = jsonInts(c, st, rng, op.N, []uint64{0, 1, 1 << 53, 1<<53 + 1, math.MaxUint64, math.MaxInt64 + 1})
+						case 11:
+							ok, why = jsonInts(c, st, rng, op.N, []float32{0, 1, -1, 0.1, 1.0 / 3, math.MaxFloat32, math.SmallestNonzeroFloat32, 16777217})
+						case 12:
+							ok, why = jsonInts(c, st, rng, op.N, []uint16{0, 1, 255, 256, 65535})
 						case 6:
 							v := make([]any, op.N)
 							for k := range v {
@@ -619,6 +703,24 @@ func (c11) Run(c *Case, st *Stats) []Violation {
 		}
 	}
 	return vs
+}
+
+// csvStrRow is a row type without a single non-string column.
+type csvStrRow struct {
+	A string
+	B string `header:"Bee"`
+	C string
+}
+
+type byteT uint8
+
+// jsonInts round-trips n values drawn from a pool of one numeric element type.
+func jsonInts[T comparable](c *Case, st *Stats, rng *rand.Rand, n int, pool []T) (bool, string) {
+	v := make([]T, n)
+	for k := range v {
+		v[k] = pool[rng.Intn(len(pool))]
+	}
+	return jsonRoundTrip(c, st, v, func(a, b T) bool { return a == b })
 }
 
 func opNames(ops []OpSpec) []string {
